@@ -43,9 +43,7 @@ fn scratch_dir() -> PathBuf {
 }
 
 fn init_python() {
-    // rateslib formats PyErr with Debug inside .expect(); that needs an interpreter or the
-    // process aborts (panic inside panic). See DESIGN 3.8.
-    pyo3::prepare_freethreaded_python();
+    crate::pyx::init();
 }
 
 #[derive(Clone, Debug, Serialize, Deserialize)]
